@@ -125,7 +125,18 @@ func c18j(c *Ctx) {
 			}
 			nDeref++
 			ord[k]++
-			establishes := func(x ssa.Instruction) bool {
+			var establishedAtCallers func(f *ssa.Function, depth int) bool
+			var ensures func(g *ssa.Function, depth int) bool
+			var establishes func(x ssa.Instruction) bool
+			establishes = func(x ssa.Instruction) bool {
+				// a call of a function of the package that leaves the field set on every return
+				// (`p.ensureFontsLoaded()`)
+				if ci, isCall := x.(ssa.CallInstruction); isCall {
+					if g := callee(ci); g != nil && c.W.InRepo(g) && g != fn && ensures(g, 0) {
+						return true
+					}
+					return false
+				}
 				st, ok := x.(*ssa.Store)
 				if !ok {
 					return false
@@ -160,7 +171,76 @@ func c18j(c *Ctx) {
 				}
 				return succ == 1
 			}
+			ensureMemo := map[*ssa.Function]int{}
+			ensures = func(g *ssa.Function, depth int) bool {
+				if len(g.Blocks) == 0 || depth > 2 {
+					return false
+				}
+				switch ensureMemo[g] {
+				case 1:
+					return true
+				case 2:
+					return false
+				}
+				ensureMemo[g] = 2
+				// must touch the field at all
+				touches := false
+				instrs(g, func(in ssa.Instruction) {
+					if st, ok := in.(*ssa.Store); ok {
+						if k2, ok := fieldOf(st.Addr); ok && k2 == k {
+							touches = true
+						}
+					}
+				})
+				if !touches {
+					return false
+				}
+				_, open := existsPath(pathQuery{from: entry(g), avoid: func(x ssa.Instruction) bool {
+					st, ok := x.(*ssa.Store)
+					if !ok {
+						return false
+					}
+					k2, ok := fieldOf(st.Addr)
+					if !ok || k2 != k {
+						return false
+					}
+					switch v := st.Val.(type) {
+					case *ssa.Alloc, *ssa.MakeInterface:
+						return true
+					case *ssa.Const:
+						return !v.IsNil()
+					}
+					return false
+				}, edgeOK: edgeOK, exitIs: true})
+				if !open {
+					ensureMemo[g] = 1
+				}
+				return !open
+			}
+			// a helper that is only ever called once the field is set: judged at its call sites
+			establishedAtCallers = func(f *ssa.Function, depth int) bool {
+				sites := c.W.callsTo(f)
+				if len(sites) == 0 || depth > 2 {
+					return false
+				}
+				for _, site := range sites {
+					g := site.Parent()
+					if isTestFunc(c.W, g) {
+						continue
+					}
+					si := site.(ssa.Instruction)
+					if _, open := existsPath(pathQuery{from: entry(g), avoid: establishes, edgeOK: edgeOK, target: func(x ssa.Instruction) bool { return x == si }}); open {
+						if !establishedAtCallers(g, depth+1) {
+							return false
+						}
+					}
+				}
+				return true
+			}
 			_, reach := existsPath(pathQuery{from: entry(fn), avoid: establishes, edgeOK: edgeOK, target: func(x ssa.Instruction) bool { return x == derefAt }})
+			if reach && token.IsExported(fn.Name()) == false && establishedAtCallers(fn, 0) {
+				reach = false
+			}
 			key := fmt.Sprintf("%s/nil-deref[%s.%s]#%d", fk, k.owner.Obj().Name(), k.name, ord[k])
 			if reach {
 				for _, e := range exs {
